@@ -11,6 +11,9 @@ def run(tier):
     rep.add_model(common.design_check("MC_MCSSelect", "MC_MCSSelect.cfg", workers=8),
                   role="design: selection among conditions on every table in the bound")
     rep.add_model(common.neg_check("MC_MCSSelect", "Neg_MCSSelect.cfg"), role="negative: ties not reset in the first pass")
+    rep.add_model(common.design_check("MCSAlign", "MC_MCSAlign.cfg", workers=4),
+                  role="design: pattern i belongs to molecule i whenever a search result is used (cancelled / failed searches)")
+    rep.add_model(common.neg_check("MCSAlign", "Neg_MCSAlign.cfg"), role="negative: without the length check of build_compounds")
     rep.add_model(common.design_check("Plumbing", "MC_Plumbing.cfg", workers=8), role="design: routing of results by id")
     rep.add_model(common.neg_check("Plumbing", "Neg_Plumbing_zip.cfg"), role="negative: positional zip")
     rep.exhaustive = True
